@@ -3,11 +3,13 @@ package drivers
 import (
 	"crypto/sha256"
 	"crypto/x509"
+	"encoding/json"
 	"fmt"
 	"net/http"
 	"os"
 	"path/filepath"
 	"sort"
+	"strconv"
 	"strings"
 	"time"
 
@@ -845,6 +847,14 @@ func c20Histories(chk *fw.Check, tier string) fw.HStats {
 
 // RunC20 is the entry point of the C20 check.
 func RunC20(tier string, args []string) int {
+	if len(args) > 0 && args[0] == "worker" {
+		sc := findC20Scenario(args[1])
+		atoi := func(s string) int { n, _ := strconv.Atoi(s); return n }
+		out := exploreShardCustom(sc, "C20", atoi(args[2]), atoi(args[3]), time.Unix(int64(atoi(args[4])), 0), atoi(args[5]), atoi(args[6]), nil)
+		b, _ := json.Marshal(out)
+		fmt.Println(string(b))
+		return 0
+	}
 	chk := fw.NewCheck("C20", tier, "exploration")
 	chk.Assumptions = []string{
 		"sandbox = parent directory holding the work_dir, a sibling directory and canary files; the tree outside the work_dir is snapshotted (names, sizes, digests) before and after every case; every path passed to the os shim is logged",
@@ -855,7 +865,29 @@ func RunC20(tier string, args []string) int {
 	cycles := c20Lifecycle(chk) + c20Special(chk)
 	foreign := c20Foreign(chk)
 	hst := c20Histories(chk, tier)
+	// all interleavings of a handshake with Cleanup (disk): what is left open afterwards, and the next cycle
+	bound, maxExec, perScenario, nshards := 1, 200000, 100*time.Second, 16
+	if tier == "thorough" {
+		bound, maxExec, perScenario, nshards = 3, 5000000, 15*time.Minute, 32
+	}
+	var schedReports []schedReport
+	schedExecs := 0
+	schedExhaustive := true
+	for _, sc := range c20Scenarios() {
+		outs := runWorkers("C20", sc.Name, bound, maxExec/nshards+1, time.Now().Add(perScenario), nshards)
+		rep := mergeWorkerOuts(chk, sc.Name, outs)
+		schedReports = append(schedReports, rep)
+		schedExecs += rep.Executions
+		if rep.Capped {
+			schedExhaustive = false
+		}
+		fmt.Printf("  S %-40s execs=%d per-bound=%v outcomes=%v capped=%v\n", sc.Name, rep.Executions, rep.PerBound, rep.Outcomes, rep.Capped)
+	}
 	cov := fw.Coverage{
+		"schedule_executions":                    schedExecs,
+		"schedule_scenarios":                     schedReports,
+		"schedule_preemption_bound":              bound,
+		"schedule_exploration_complete_to_bound": schedExhaustive,
 		"history_states":      hst.States,
 		"history_transitions": hst.Transitions,
 		"evaluations":         evals + cycles + foreign + hst.Transitions,
@@ -869,6 +901,85 @@ func RunC20(tier string, args []string) int {
 		"exhaustive":          true,
 	}
 	return chk.Finish(cov)
+}
+
+// c20Scenarios: a handshake and Cleanup at the same time (what a configuration reload under traffic produces), every
+// interleaving, file and database operations being scheduling points. Whatever the order: once both are through no
+// database of the work_dir is open, nothing of the validator runs any more, and the next Provision on the same work_dir
+// gets a validator which answers from what is stored there.
+func c20Scenarios() []*schedScenario {
+	p := world.Std()
+	v1 := world.SimpleCRL(p.CA, 1, 901).DER()
+	listed := world.Leaf(p.CA, bi(901), []string{urlA}, nil)
+	chain := world.Chain(listed, p.CA, p.Root)
+	base := CWOpt{Disk: true, SigMode: config.SignatureValidationModeVerify, Interval: "10m"}
+	hs := schedOp{Name: "hs(listed)", Fn: func(x *schedCtx) string { return x.W[0].Lookup(listed, chain).String() }}
+	post := func(x *schedCtx) string {
+		vsched.Drain()
+		open := len(vleveldb.OpenPaths())
+		live, _ := vsched.Live()
+		_, tmps, other := ListDir(x.W[0].Dir)
+		o := base
+		o.Dir, o.Net = x.W[0].Dir, x.W[0].Net
+		w2 := NewCW(o)
+		x.W = append(x.W, w2)
+		cycle := ""
+		if err := w2.Provision(); err != nil {
+			cycle = "provision-fails"
+		} else {
+			vsched.Drain()
+			cycle = w2.Lookup(listed, chain).String()
+			w2.Chk.Cleanup()
+			vsched.Drain()
+		}
+		return fmt.Sprintf("open-databases=%d live=%d residue=%d next-cycle=%s", open, live, len(tmps)+len(other), cycle)
+	}
+	judge := func(obs []string) (string, string) {
+		last := obs[len(obs)-1]
+		if !strings.HasPrefix(last, "open-databases=0 ") {
+			return "C20|database-handle-open-after-cleanup|backend=disk handshake-during-cleanup", "a handshake which ran while Cleanup did left a database of the work_dir open: " + last
+		}
+		if last != "open-databases=0 live=0 residue=0 next-cycle=REVOKED" {
+			return "C20|cycle-after-handshake-during-cleanup|backend=disk", "after a handshake which ran while Cleanup did: " + last + " (expected nothing open, nothing running, nothing left behind, and the next validator on the work_dir rejecting the listed certificate)"
+		}
+		return "", ""
+	}
+	cfg := vsched.Config{EffectsArePoints: true}
+	return []*schedScenario{
+		{Name: "k1-known-list-handshake-vs-cleanup/disk", Cfg: cfg, NoSerialOracle: true,
+			Setup: func(x *schedCtx) {
+				w := NewCW(base)
+				x.W = append(x.W, w)
+				if err := w.Provision(); err != nil {
+					panic(err)
+				}
+				vsched.Drain()
+				w.Net.Serve(urlA, "v1", v1)
+				w.Lookup(listed, chain)
+				vsched.Drain()
+			},
+			Ops: []schedOp{hs, cleanupOp(0)}, Post: post, Judge: judge},
+		{Name: "k2-first-use-handshake-vs-cleanup/disk", Cfg: cfg, NoSerialOracle: true,
+			Setup: func(x *schedCtx) {
+				w := NewCW(base)
+				x.W = append(x.W, w)
+				if err := w.Provision(); err != nil {
+					panic(err)
+				}
+				vsched.Drain()
+				w.Net.Serve(urlA, "v1", v1)
+			},
+			Ops: []schedOp{hs, cleanupOp(0)}, Post: post, Judge: judge},
+	}
+}
+
+func findC20Scenario(name string) *schedScenario {
+	for _, sc := range c20Scenarios() {
+		if sc.Name == name {
+			return sc
+		}
+	}
+	return nil
 }
 
 func init() { registry["C20"] = RunC20 }
